@@ -70,6 +70,13 @@ def run_scenario(wire, scn, timeout=60):
         if err and any(x in err for x in RESOURCE_ERRORS) and attempt < 5:
             time.sleep(2 + 3 * attempt)
             continue
+        if "harness_panic" in res:
+            # the harness's OWN main thread panicked (a socket / thread it could not get under load, start-up code): pgcat's client
+            # tasks run in spawned tasks and cannot do that.  Not an observation of the pooler: repeat, then report as a fault.
+            if attempt < 4:
+                time.sleep(2 + 3 * attempt)
+                continue
+            return {"harness_fault": "harness main thread panicked: %s (pooler started: %s)" % (res.get("harness_panic"), res.get("pooler_started"))}
         if err.startswith("no output rc=101") and attempt < 2:
             # the harness's own main thread panicked before it could report (typically an unwrap on a socket it could not get)
             time.sleep(2)
